@@ -1513,6 +1513,10 @@ M('C12', 'original defect: change_charge re-orders the basis without setting use
   "            self.used_sort_charge = True  # dense operators in the standard basis need `perm` from now on\n", "",
   'SITE-perm-flag')
 
+M('C19', 'original defect: IrregularLattice._ordering_irreg leaves the temporary _perm behind', 'tenpy/models/lattice.py',
+  "            if perm_backup is not None:\n                self._perm = perm_backup  # only temporarily: `ordering` does not change the lattice\n", "",
+  'GEOM-query-pure')
+
 # ---------------------------------------------------------------- C16 / C19
 M('C16', 'GMRES restart: relative residual norm used for normalisation (round-3 seed b)', KRY,
   """        self.total_error.append([npc.norm(self.rs[-1]) / self.b_norm])
